@@ -211,3 +211,41 @@ func extHTMLParse(fr *frame, args []value) value {
 	}
 	return tuple{res, iface{}}
 }
+
+// sort.Slice / sort.SliceStable (reflection-based swapper in the real code):
+// insertion sort driven by the target's less function. Equal elements keep
+// their order (sort.Slice natively gives no such guarantee; callers must not
+// depend on it).
+func extSortSlice(fr *frame, args []value) value {
+	i := fr.i
+	x, _ := args[0].(iface)
+	s, ok := x.v.([]value)
+	if !ok {
+		panic(abortPath{"unsupported", "sort.Slice on a non-slice"})
+	}
+	less := args[1]
+	for a := 1; a < len(s); a++ {
+		for b := a; b > 0; b-- {
+			r := call(i, fr, 0, less, []value{b, b - 1})
+			lt := false
+			switch r := r.(type) {
+			case bool:
+				lt = r
+			case symv:
+				lt = i.branch(r.t)
+			}
+			if !lt {
+				break
+			}
+			i.logStore(&s[b])
+			i.logStore(&s[b-1])
+			s[b], s[b-1] = s[b-1], s[b]
+		}
+	}
+	return nil
+}
+
+func init() {
+	externals["sort.Slice"] = extSortSlice
+	externals["sort.SliceStable"] = extSortSlice
+}
